@@ -89,6 +89,10 @@ def emit_need(n):
         if frame is not None:
             s += " in frame %s" % frame
         return neg + s + " is done"
+    if k == "auxdonex":      # ('auxdonex', which, frame, framer, neg): done condition on a frame of ANOTHER framer
+        _, which, frame, framer, _neg = n
+        s = which if which in ("any", "all") else "aux %s" % which
+        return neg + s + " in frame %s in framer %s is done" % (frame, framer)
     if k == "status":
         return neg + "%s is %s" % (n[1], n[2])
     if k in ("updated", "changed"):
